@@ -253,3 +253,56 @@ Example scroll_starved_refuted :
   let s := srun GateGt 3 0 (rep 3 GLine ++ rep 50 GTick ++ [RDisplay]) (sinit 3 7) in
   k_eof s = false /\ k_n s = 3 /\ k_box s = None /\ k_wn s = 0 /\ k_woff s = 7 /\ k_lost s = false.
 Proof. vm_compute. repeat split; reflexivity. Qed.
+
+(* ---------------------------------------------------------------- the window machine (model/PreviewWindowModel.v)
+   "... and its output is what the preview window shows": the render loop's handling of results (reqPreviewDisplay,
+   printPreview with its `unchanged` short cut that redraws the first row only) restated as a machine; a state with no
+   line under the cursor (spec/PreviewWindowSpec.v: has_command = false) is answered by the previewer with an empty
+   result under a NEW version. *)
+From Fzf Require Import PreviewWindowSpec PreviewWindowModel PreviewWindowProofs.
+
+(* For every stream of results in which a result either carries a version the window has not drawn yet or extends the
+   (non-empty) output drawn under the same version, for every height and both settings of `follow`: the rows of the
+   window are the view of the lines of the last result at the window's offset, and the memo of printPreview agrees. *)
+Theorem window_shows_last_result : forall h optf rs s,
+  winv h s -> wf_stream h optf rs s -> winv h (wrun h optf rs s).
+Proof. exact window_shows_last_result_proof. Qed.
+Print Assumptions window_shows_last_result.
+
+(* A result under a version that has not been drawn is drawn in full whatever the window held (no invariant needed). *)
+Theorem fresh_result_drawn : forall h optf s r,
+  pr_ver r <> m_ver s ->
+  w_rows (on_display h optf s r) = view (pr_lines r) (Z.to_nat (w_off (on_display h optf s r))) h.
+Proof. exact fresh_result_drawn_proof. Qed.
+Print Assumptions fresh_result_drawn.
+
+(* The state without a line: the previewer of the tree (version advanced for every request taken) blanks the window,
+   from ANY window state, full or not, following or not. *)
+Theorem blank_result_blanks_window : forall h optf s pver,
+  (m_ver s <= pver)%nat ->
+  w_rows (on_display h optf s (blank_result true pver)) = blank_rows h.
+Proof. exact blank_result_blanks_window_proof. Qed.
+Print Assumptions blank_result_blanks_window.
+
+(* Refuted witness: the previewer that advances its version only when it starts a command (a full window that follows
+   the output keeps the superseded command's lines below the first row). *)
+Theorem blank_result_reused_version_refuted :
+  exists h optf rs,
+    let s := wrun h optf rs (winit h) in
+    wf_stream h optf rs (winit h) /\
+    w_rows (on_display h optf s (blank_result true (w_ver s))) = blank_rows h /\
+    w_rows (on_display h optf s (blank_result false (w_ver s))) <> blank_rows h.
+Proof. exact blank_result_reused_version_refuted_proof. Qed.
+Print Assumptions blank_result_reused_version_refuted.
+
+(* non-vacuity: a command prints 2 lines, then 2 more (same version, the window of 3 rows follows), then the next
+   command's first result: every step is well formed and the window ends on the new command's only line *)
+Example window_nonvacuous :
+  let rs := [mkPR 1 [[1]; [2]] 0; mkPR 1 [[1]; [2]; [3]; [4]] (-1); mkPR 2 [[9]] 0] in
+  wf_stream 3 true rs (winit 3) /\ w_rows (wrun 3 true rs (winit 3)) = [Some [9]; None; None].
+Proof.
+  split; [|reflexivity].
+  simpl. split; [left; split; [discriminate | apply Z.le_refl] |].
+  split; [right; split; [reflexivity | split; [discriminate | exists [[3]; [4]]; reflexivity]] |].
+  split; [left; split; [discriminate | apply Z.le_refl] | exact I].
+Qed.
